@@ -16,6 +16,7 @@ pub mod c13;
 pub mod c14;
 pub mod c15;
 pub mod c16;
+pub mod c18;
 
 use crate::ctx::Ctx;
 use crate::report::Report;
@@ -39,6 +40,7 @@ pub fn dispatch(ctx: &Ctx, rep: &mut Report) -> bool {
         "C14" => c14::run(ctx, rep),
         "C15" => c15::run(ctx, rep),
         "C16" => c16::run(ctx, rep),
+        "C18" => c18::run(ctx, rep),
         _ => return false,
     }
     true
